@@ -168,7 +168,10 @@ def _case_value(prog, ent, case_name, case):
     elif ent.get("selector_type") and not isinstance(case, dict):
         presets[ent["selector_type"]] = ("variant", case_name)
     name_case = case.get("name") if isinstance(case, dict) else None
-    ev = A.Evaluator(prog, presets=presets, type_alias=ent.get("alias", {}), watch=(ent.get("watch", "-"),), opaque=ent.get("opaque", ()), name_case=name_case, transparent=ent.get("transparent", ("fstr",)), iflet=(case.get("iflet") if isinstance(case, dict) else None) or ent.get("iflet"))
+    opaque = list(ent.get("opaque", ()))
+    if ent.get("opaque_prefix"):
+        opaque += [q for q in A.Evaluator(prog).by_path if q.startswith(ent["opaque_prefix"])]
+    ev = A.Evaluator(prog, presets=presets, type_alias=ent.get("alias", {}), watch=(ent.get("watch", "-"),), opaque=opaque, name_case=name_case, transparent=ent.get("transparent", ("fstr",)), iflet=(case.get("iflet") if isinstance(case, dict) else None) or ent.get("iflet"))
     h = ev.by_path.get(ent["function"])
     argv = None
     if isinstance(case, dict) and case.get("args"):
